@@ -433,6 +433,32 @@ func installReflectModel(m *Machine) {
 		}
 		return []Val{RValue{T: t, Valid: true, V: zeroVal(t)}}, true
 	})
+	H("reflect.MakeSlice", func(st *State, call *ssa.CallCommon, args []Val) ([]Val, bool) {
+		t, ok := rtypeOf(args[0])
+		n, ok1 := args[1].(int64)
+		c, ok2 := args[2].(int64)
+		if !ok || !ok1 || !ok2 {
+			st.stuck("reflect.MakeSlice(%T, %T, %T) is not modelled", args[0], args[1], args[2])
+			return nil, true
+		}
+		sl, isSl := t.Underlying().(*types.Slice)
+		if !isSl {
+			return rpanic(st, "reflect.MakeSlice of non-slice type")
+		}
+		if n < 0 || c < 0 || n > c {
+			return rpanic(st, "reflect.MakeSlice: bad len/cap %d/%d", n, c)
+		}
+		if c > 4096 {
+			st.stuck("reflect.MakeSlice with capacity %d", c)
+			return nil, true
+		}
+		arr := &ArrayV{}
+		for i := int64(0); i < c; i++ {
+			arr.E = append(arr.E, zeroVal(sl.Elem()))
+		}
+		id := st.alloc(types.NewArray(sl.Elem(), c), arr)
+		return []Val{RValue{T: t, Valid: true, V: SliceV{Obj: id, Len_: int(n), Cap: int(c)}}}, true
+	})
 	H("reflect.Append", func(st *State, call *ssa.CallCommon, args []Val) ([]Val, bool) {
 		rv, isR := args[0].(RValue)
 		if !isR || !rv.Valid {
@@ -556,6 +582,38 @@ func installReflectModel(m *Machine) {
 				return rpanic(st, "Field index out of bounds")
 			}
 			return []Val{structField(st, s, int(i))}, true
+		case "Bits":
+			if b, ok := t.Underlying().(*types.Basic); ok {
+				switch b.Kind() {
+				case types.Int8, types.Uint8:
+					return []Val{int64(8)}, true
+				case types.Int16, types.Uint16:
+					return []Val{int64(16)}, true
+				case types.Int32, types.Uint32, types.Float32:
+					return []Val{int64(32)}, true
+				case types.Int64, types.Uint64, types.Float64, types.Complex64:
+					return []Val{int64(64)}, true
+				case types.Complex128:
+					return []Val{int64(128)}, true
+				case types.Int, types.Uint, types.Uintptr:
+					return []Val{int64(wordBits)}, true
+				}
+			}
+			return rpanic(st, "reflect.Type.Bits of non-arithmetic Type %s", t)
+		case "AssignableTo":
+			ot, ok := rtypeOf(args[0])
+			if !ok {
+				return nil, false
+			}
+			return []Val{types.AssignableTo(t, ot)}, true
+		case "ConvertibleTo":
+			ot, ok := rtypeOf(args[0])
+			if !ok {
+				return nil, false
+			}
+			return []Val{types.ConvertibleTo(t, ot)}, true
+		case "Comparable":
+			return []Val{types.Comparable(t)}, true
 		case "Implements":
 			it, ok := rtypeOf(args[0])
 			if !ok {
